@@ -30,7 +30,7 @@ func TestVerif_C12_bidir(t *testing.T) {
 	defer rec.Flush()
 	rec.Require("accepted", "refused", "forged-response", "forged-signature-fields", "authenticated", "unauthenticated",
 		"param-override", "overrides-disabled-and-configured", "substituted:Min_Transport", "substituted:Prefix_Transport",
-		"original-in-exclusion", "exclusion-decisive:unlabelled", "exclusion-decisive:labelled-own-transport", "exclusion-decisive:labelled-other-transport",
+		"substituted-from-subnet-written-non-canonically", "original-in-exclusion", "exclusion-decisive:unlabelled", "exclusion-decisive:labelled-own-transport", "exclusion-decisive:labelled-other-transport",
 		"station-v4", "station-v6", "dual-stack", "forwarded-source-not-bidirectional-and-registrar-changed-something",
 		"forwarded-source:API", "forwarded-source:DNS", "forwarded-source:DetectorPrescan", "forwarded-source:Detector", "forwarded-source:BidirectionalAPI", "forwarded-source:BidirectionalDNS")
 	e := C12NewEnv(t)
